@@ -102,6 +102,16 @@ def observables(s, H):
         sym["radius"] = s.radius
         sym["volume"] = s.volume
         sym["surface_area"] = s.surface_area
+    if kind in ("Polygon", "ConvexPolygon") or (FULL_OBS and kind in ("Polyhedron", "ConvexPolyhedron")):
+        # containment at probe points tied to the current vertices (affine combinations: in the plane for polygons);
+        # a query also fills whatever the implementation caches for it
+        vs = [list(v) for v in s.vertices]
+        n = len(vs)
+        vm = [sum(v[k] for v in vs) / n for k in range(3)]
+        probes = [[vm[k] + (vs[0][k] - vm[k]) / 7 for k in range(3)], [vs[0][k] + 2 * (vs[0][k] - vm[k]) for k in range(3)],
+                  [(vs[0][k] + vs[1][k] + vs[2][k]) / 3 + (vm[k] - vs[0][k]) / 50 for k in range(3)]]
+        res = s.is_inside(H.arr(probes))
+        conc["is_inside"] = [bool(x) for x in res]
     return conc, sym
 
 
@@ -358,6 +368,13 @@ def obligations(tier, seed):
         for op in alphabet(kind):
             obs.append(_ob(kind, var, [op], tier))
     if tier == "quick":
+        # polygons: look at everything, mutate, look again
+        for kind, var in (("Polygon", None), ("ConvexPolygon", None)):
+            red = [o for o in alphabet(kind, reduced=True)]
+            obsop = [o for o in red if o.label == "observe"][0]
+            for o in red:
+                if o.label != "observe":
+                    obs.append(_ob(kind, var, [obsop, o], tier))
         pair_kinds = [("Polyhedron", "tri_cube"), ("ConvexPolyhedron", None), ("ConvexSpheropolygon", None)]
         want = ("volume", "area", "centroid", "diagonalize_inertia[proper]", "merge_faces", "to_hoomd", "observe")
         for kind, var in pair_kinds:
